@@ -115,6 +115,39 @@ class CompositeModel:
         return m.eval(e, model_completion)
 
 
+class Prefix(list):
+    """A decision prefix that remembers which of its decisions were taken with undecided feasibility."""
+
+    def __init__(self, items=(), uncertain=()):
+        super().__init__(items)
+        self.uncertain = frozenset(uncertain)
+
+
+def _related(cons, z):
+    """The constraints of `cons` that share variables, transitively, with z."""
+    names = set(vars_of(z))
+    pending = [(c, vars_of(c)) for c in cons]
+    out = []
+    changed = True
+    while changed:
+        changed = False
+        rest = []
+        for c, vs in pending:
+            if vs & names:
+                names |= vs
+                out.append(c)
+                changed = True
+            else:
+                rest.append((c, vs))
+        pending = rest
+    return out
+
+
+CONFIRM_MS = (5000, 20000)
+RLIMIT_PER_MS = 1800  # measured: a 3.0 s `unknown` of the generic solver consumes ~5.5 M units
+WALL_FACTOR = 3
+
+
 class PathCtx:
     """One execution path: a decision prefix that is replayed, then extended.
 
@@ -125,10 +158,19 @@ class PathCtx:
     are first tried through the exact 64-bit bit-vector translation (rvproof.bvsolve)."""
 
     def __init__(self, prefix=(), timeout_ms=10000, stats=None):
+        # Budgets are stated in "nominal milliseconds" and enforced through z3's deterministic
+        # resource counter (rlimit, ~RLIMIT_PER_MS units per millisecond on an idle core) so that
+        # a verdict does not depend on machine load; the wall-clock timeout (WALL_FACTOR x nominal)
+        # is only a safety net.
         self.timeout_ms = timeout_ms
-        self.feas_timeout_ms = 3000
+        self.feas_timeout_ms = 1200
         self.maybe_infeasible = False  # some feasibility query came back unknown on this path
         self.prefix = list(prefix)
+        # decisions whose feasibility the (short-budget) solver could not decide: indices into the
+        # decision list (inherited through the prefix) and, for this run, (len(pc) before, condition)
+        self.prefix_uncertain = set(getattr(prefix, "uncertain", ()))
+        self.uncertain_idx = set()
+        self.uncertain = []
         self.decisions = []  # choices actually taken on this path
         self.alternatives = []  # prefixes that still have to be explored
         self.pc = []
@@ -238,7 +280,7 @@ class PathCtx:
                 ts = [self.bvtr.tr_bool(c) for c in allc]
                 t0 = time.time()
                 s = z3.SolverFor("QF_BV")
-                s.set("timeout", self.timeout_ms)
+                s.set("timeout", self.timeout_ms * WALL_FACTOR)
                 for sd in self.bvtr.side:
                     s.add(sd)
                 for t in ts:
@@ -251,7 +293,8 @@ class PathCtx:
                 pass
         t0 = time.time()
         s = z3.Solver()
-        s.set("timeout", self.timeout_ms)
+        s.set("timeout", self.timeout_ms * WALL_FACTOR)
+        s.set("rlimit", self.timeout_ms * RLIMIT_PER_MS)
         for c in allc:
             s.add(c)
         r = s.check()
@@ -305,6 +348,8 @@ class PathCtx:
         if i < len(self.prefix):
             d = self.prefix[i]
             self.decisions.append(d)
+            if i in self.prefix_uncertain:
+                self._uncertain(i, z if d else z3.Not(z))
             self.add(z if d else z3.Not(z))
             return bool(d)
         rt = self.feasible(z)
@@ -313,17 +358,22 @@ class PathCtx:
             self.add(z3.Not(z))
             return False
         rf = self.feasible(z3.Not(z))
-        if rt == z3.unknown or rf == z3.unknown:
-            self.maybe_infeasible = True
         if rf == z3.unsat:
-            self.decisions.append(1)
+            self.decisions.append(1)  # implied by the path condition: adds no uncertainty
             self.add(z)
             return True
         # both feasible (or unknown, which is treated as feasible: sound, maybe wasteful)
-        self.alternatives.append(self.decisions + [0])
+        self.alternatives.append(Prefix(self.decisions + [0], self.uncertain_idx | ({i} if rf == z3.unknown else set())))
         self.decisions.append(1)
+        if rt == z3.unknown:
+            self._uncertain(i, z)
         self.add(z)
         return True
+
+    def _uncertain(self, i, z):
+        self.maybe_infeasible = True
+        self.uncertain_idx.add(i)
+        self.uncertain.append((len(self.pc), z))
 
     def choice(self, n, label="choice") -> int:
         """Complete n-way case split (concrete alternatives)."""
@@ -335,7 +385,7 @@ class PathCtx:
             self.decisions.append(d)
             return d
         for k in range(n - 1, 0, -1):
-            self.alternatives.append(self.decisions + [k])
+            self.alternatives.append(Prefix(self.decisions + [k], self.uncertain_idx))
         self.decisions.append(0)
         return 0
 
@@ -347,18 +397,20 @@ class PathCtx:
         if i < len(self.prefix):
             k = self.prefix[i]
             self.decisions.append(k)
+            if i in self.prefix_uncertain:
+                self._uncertain(i, conds[k])
             self.add(conds[k])
             return k
         rs = [self.feasible(c) for c in conds]
-        if any(r == z3.unknown for r in rs):
-            self.maybe_infeasible = True
         feas = [k for k, r in enumerate(rs) if r != z3.unsat]
         if not feas:
             raise PathInfeasible()
         for k in feas[:0:-1]:
-            self.alternatives.append(self.decisions + [k])
+            self.alternatives.append(Prefix(self.decisions + [k], self.uncertain_idx | ({i} if rs[k] == z3.unknown else set())))
         k = feas[0]
         self.decisions.append(k)
+        if rs[k] == z3.unknown:
+            self._uncertain(i, conds[k])
         self.add(conds[k])
         return k
 
@@ -389,7 +441,7 @@ class PathCtx:
             raise Unsupported(f"symbolic value where a concrete integer is required: {z}")
         vals.sort()
         for v2 in vals[:0:-1]:
-            self.alternatives.append(self.decisions + [("val", v2)])
+            self.alternatives.append(Prefix(self.decisions + [("val", v2)], self.uncertain_idx))
         self.decisions.append(("val", vals[0]))
         self.add(z == vals[0])
         return vals[0]
@@ -399,6 +451,34 @@ class PathCtx:
         satisfiable?  -> sat / unsat / unknown (long timeout, no slicing)."""
         if not self.maybe_infeasible:
             return z3.sat
+        if self.uncertain:
+            # the path condition is satisfiable iff every decision was satisfiable when it was taken
+            # (everything else added to it is definitional); re-examine the undecided ones with a
+            # long budget, each against the part of the path condition that existed at that point
+            # latest first (a spurious branch usually ends the path soon), with an escalating budget
+            old = self.timeout_ms
+            verdicts = {}
+            try:
+                for budget in CONFIRM_MS:
+                    self.timeout_ms = budget
+                    for k in range(len(self.uncertain) - 1, -1, -1):
+                        if verdicts.get(k) == z3.sat:
+                            continue
+                        n, z = self.uncertain[k]
+                        r, _m = self._solve(_related(self.pc[:n], z), [z])
+                        if r == z3.unsat:
+                            return z3.unsat
+                        verdicts[k] = r
+                    if all(v == z3.sat for v in verdicts.values()):
+                        break
+            finally:
+                self.timeout_ms = old
+            verdicts = list(verdicts.values())
+            if all(v == z3.sat for v in verdicts):
+                self.maybe_infeasible = False
+                self.uncertain = []
+                return z3.sat
+            return z3.unknown
         r, _m = self._solve(list(self.pc), [])
         if r == z3.sat:
             self.maybe_infeasible = False
